@@ -699,3 +699,662 @@ Theorem raw_alloc_slow_post c s size align r s' res :
   raw_alloc_slow c s size align r = (s', res) ->
   alloc_result_ok c s s' size align res.
 Proof. intros Hc Hg Hl Hr H. unfold raw_alloc_slow in H. eapply in_another_chunk_post; eassumption. Qed.
+
+(* ------------------------------------------------------------ ghost list bookkeeping *)
+Lemma placed_ext c s s' p sz :
+  chunks s' = chunks s -> cur s' = cur s -> placed c s p sz -> placed c s' p sz.
+Proof. intros E1 E2 H. unfold placed in *. rewrite E1, E2. exact H. Qed.
+
+Lemma ginv_ext c s s' :
+  chunks s' = chunks s -> cur s' = cur s -> aligns s' = aligns s -> ginv c s -> ginv c s'.
+Proof. intros E1 E2 E3 H. unfold ginv, malign in *. rewrite E1, E2, E3. exact H. Qed.
+
+Lemma block_ok_ext c s s' b :
+  chunks s' = chunks s -> cur s' = cur s -> block_ok c s b -> block_ok c s' b.
+Proof. intros E1 E2 (A & B & C). repeat split; try assumption. eapply placed_ext; eassumption. Qed.
+
+Lemma find_block_spec s id blk : find_block s id = Some blk -> In blk (live s) /\ bid blk = id.
+Proof.
+  unfold find_block. intros H. apply find_some in H. destruct H as [H1 H2].
+  split; [exact H1|]. apply Nat.eqb_eq. exact H2.
+Qed.
+
+Lemma ForallOrdPairs_filter {A} (R : A -> A -> Prop) (f : A -> bool) l :
+  ForallOrdPairs R l -> ForallOrdPairs R (filter f l).
+Proof.
+  induction 1 as [|a l Ha Hl IH]; cbn; [constructor|].
+  destruct (f a); [|exact IH]. constructor; [|exact IH].
+  rewrite Forall_forall in *. intros x Hx. apply filter_In in Hx. apply Ha. tauto.
+Qed.
+
+Lemma Forall_filter {A} (P : A -> Prop) (f : A -> bool) l : Forall P l -> Forall P (filter f l).
+Proof. rewrite !Forall_forall. intros H x Hx. apply filter_In in Hx. apply H. tauto. Qed.
+
+Lemma NoDup_map_filter {A B} (g : A -> B) (f : A -> bool) l : NoDup (map g l) -> NoDup (map g (filter f l)).
+Proof.
+  induction l as [|a l IH]; cbn; intros H; [constructor|]. inversion H as [|x xs Hn Hd]; subst.
+  destruct (f a); cbn; [constructor|]; auto.
+  intros Hin. apply Hn. apply in_map_iff in Hin. destruct Hin as (y & E & Hy).
+  apply in_map_iff. exists y. split; [exact E|]. apply filter_In in Hy. tauto.
+Qed.
+
+Lemma ids_ok_filter s f : ids_ok s -> ids_ok (upd_live s (filter f (live s))).
+Proof.
+  intros [H1 H2]. unfold ids_ok. cbn [live upd_live nextid]. split.
+  - apply NoDup_map_filter. exact H1.
+  - apply Forall_filter. exact H2.
+Qed.
+
+Lemma disjoint_rng_sym p1 s1 p2 s2 : disjoint_rng p1 s1 p2 s2 -> disjoint_rng p2 s2 p1 s1.
+Proof. unfold disjoint_rng. lia. Qed.
+
+(* the invariant over a state whose ghost list was filtered *)
+Lemma inv_filter c s f : inv c s -> inv c (upd_live s (filter f (live s))).
+Proof.
+  intros (Hg & Hb & Hd & Hi). split; [exact Hg|]. split.
+  - cbn [live upd_live]. apply Forall_filter. exact Hb.
+  - split; [cbn [live upd_live]; apply ForallOrdPairs_filter; exact Hd|apply ids_ok_filter; exact Hi].
+Qed.
+
+(* adding a fresh, well placed, disjoint block *)
+Lemma inv_add_block c s p sz al s' id :
+  ginv c s -> Forall (block_ok c s) (live s) -> ForallOrdPairs disjoint2 (live s) -> ids_ok s ->
+  0 <= sz -> (al | p) -> placed c s p sz ->
+  (forall b, In b (live s) -> disjoint_rng (bptr b) (bsize b) p sz) ->
+  add_block s p sz al = (s', id) ->
+  inv c s'.
+Proof.
+  intros Hg Hb Hd [Hn Hlt] Hsz Hal Hpl Hdis H. unfold add_block in H. injection H as <- <-.
+  split; [exact Hg|]. split.
+  - cbn [live bump_id upd_live]. constructor; [|exact Hb].
+    repeat split; cbn [bsize bptr balign]; assumption.
+  - split.
+    + cbn [live bump_id upd_live]. constructor; [|exact Hd].
+      rewrite Forall_forall. intros b Hin. unfold disjoint2. cbn [bptr bsize].
+      apply disjoint_rng_sym. apply Hdis. exact Hin.
+    + unfold ids_ok. cbn [live bump_id upd_live nextid map bid]. split.
+      * constructor; [|exact Hn]. intros Hin. apply in_map_iff in Hin. destruct Hin as (b & E & Hb').
+        rewrite Forall_forall in Hlt. specialize (Hlt b Hb'). cbn in E. lia.
+      * constructor; [cbn; lia|]. rewrite Forall_forall in *. intros b Hb'. specialize (Hlt b Hb'). cbn. lia.
+Qed.
+
+(* ------------------------------------------------------------ moving the bump position *)
+Lemma cur_chunk_spec s ch : cur_chunk s = Some ch -> exists i, cur s = Cur i /\ nth_error (chunks s) i = Some ch.
+Proof. unfold cur_chunk. destruct (cur s) as [i| |]; try discriminate. intros H. exists i. split; [reflexivity|exact H]. Qed.
+
+Lemma set_cur_pos_inv c s i ch np :
+  cfg_ok c -> inv c s -> cur s = Cur i -> nth_error (chunks s) i = Some ch ->
+  content_start c ch <= np <= content_end c ch -> (malign s | np) ->
+  (forall b, In b (live s) -> 0 < bsize b -> in_chunk c ch (bptr b) (bsize b) ->
+     if up c then bptr b + bsize b <= np else np <= bptr b) ->
+  inv c (set_cur_pos s np).
+Proof.
+  intros Hc ((Hok & Hd & Hm & Hcur) & Hb & Hdis & Hids) Ec En Hnp Hmnp Hside.
+  pose proof (Forall_nth_error _ _ _ _ Hok En) as [Hgeo _].
+  pose proof (nth_error_some_lt _ _ _ En) as Hlt.
+  unfold set_cur_pos. rewrite Ec, En.
+  assert (HF : Forall2 same_geom (chunks s) (set_nth (chunks s) i (set_pos ch np))).
+  { eapply Forall2_set_nth; [apply Forall2_same_geom_refl|exact En|apply same_geom_set_pos]. }
+  split.
+  { unfold ginv. cbn [chunks cur upd_chunks malign aligns].
+    split; [apply Forall_set_nth; [exact Hok|exact (set_pos_ok c ch np Hgeo Hnp)]|].
+    split; [eapply chunks_disjoint_same_geom; eassumption|]. split; [exact Hm|].
+    rewrite Ec. exists (set_pos ch np). split; [apply nth_error_set_nth_eq; exact Hlt|exact Hmnp]. }
+  split; [|split; [exact Hdis|exact Hids]].
+  cbn [live upd_chunks]. rewrite Forall_forall in *. intros b Hin.
+  destruct (Hb b Hin) as (B1 & B2 & (k & chk & Hk & Hinc & Hs)). rewrite Ec in Hs. destruct Hs as [Hki Hks].
+  split; [exact B1|]. split; [exact B2|].
+  destruct (Nat.eq_dec k i) as [->|Hne].
+  - rewrite En in Hk. injection Hk as <-.
+    exists i, (set_pos ch np). cbn [chunks cur upd_chunks]. rewrite Ec.
+    split; [apply nth_error_set_nth_eq; exact Hlt|]. split; [exact Hinc|]. split; [lia|].
+    intros _ Hpos. unfold alloc_side. cbn [set_pos cpos]. apply Hside; assumption.
+  - exists k, chk. cbn [chunks cur upd_chunks]. rewrite Ec.
+    split; [rewrite nth_error_set_nth_neq by congruence; exact Hk|]. split; [exact Hinc|].
+    split; [exact Hki|intros E; congruence].
+Qed.
+
+(* is_last never fires for a block of another chunk *)
+Lemma is_last_in_cur c s i ch p sz :
+  cfg_ok c -> ginv c s -> cur s = Cur i -> nth_error (chunks s) i = Some ch ->
+  0 <= sz -> placed c s p sz ->
+  (if up c then p + sz = cpos ch else p = cpos ch) ->
+  in_chunk c ch p sz.
+Proof.
+  intros Hc (Hok & Hd & Hm & Hcur) Ec En Hsz (k & chk & Hk & Hin & Hs) Hlast.
+  rewrite Ec in Hs. destruct Hs as [Hki _].
+  destruct (Nat.eq_dec k i) as [->|Hne]; [rewrite En in Hk; injection Hk as <-; exact Hin|exfalso].
+  pose proof (Forall_nth_error _ _ _ _ Hok En) as [Gi Pi].
+  pose proof (Forall_nth_error _ _ _ _ Hok Hk) as [Gk _].
+  pose proof (geom_bounds c Hc ch Gi) as (_ & _ & _ & _ & _ & _ & Bi1 & Bi2).
+  pose proof (geom_bounds c Hc chk Gk) as (_ & _ & _ & _ & _ & _ & Bk1 & Bk2).
+  specialize (Hd k i chk ch Hne Hk En).
+  destruct Gi as (_ & _ & _ & _ & Hhsi & _ & Gri & _). destruct Gk as (_ & _ & _ & _ & Hhsk & _ & Grk & _).
+  destruct Hin as [I1 I2]. destruct Hc as [(_ & _ & _ & _ & H32 & _) _].
+  unfold content_start, content_end in *. destruct (up c); lia.
+Qed.
+
+(* ------------------------------------------------------------ contracts *)
+(* a checkpoint the caller may still reset to (the documented safety contract of reset_to;
+   ArenaScope.v shows that checkpoints taken by OCheckpoint satisfy it until a reset crosses them) *)
+Definition cp_valid (c : cfg) (s : arena) (cp : checkpoint) : Prop :=
+  match cp_state cp with
+  | Cur j => exists ch, nth_error (chunks s) j = Some ch /\
+      content_start c ch <= cp_addr cp <= content_end c ch /\ (malign s | cp_addr cp) /\
+      (exists i, cur s = Cur i /\ (j <= i)%nat) /\
+      (forall b, In b (live s) -> (born b <= cp_epoch cp)%nat ->
+         exists k chk, nth_error (chunks s) k = Some chk /\ in_chunk c chk (bptr b) (bsize b) /\ (k <= j)%nat /\
+           (k = j -> 0 < bsize b -> if up c then bptr b + bsize b <= cp_addr cp else cp_addr cp <= bptr b))
+  | Unalloc => guaranteed c = false /\ forall b, In b (live s) -> (born b <= cp_epoch cp)%nat -> False
+  | Claimed => False
+  end.
+
+Definition op_ok (c : cfg) (s : arena) (o : op) : Prop :=
+  match o with
+  | OAlloc _ _ size align _ => valid_layout size align
+  | OTryErr _ _ size align => valid_layout size align
+  | OGrow _ _ b nsize nalign _ =>
+    valid_layout nsize nalign /\ forall blk, find_block s b = Some blk -> bsize blk <= nsize
+  | OShrink _ _ b nsize nalign =>
+    valid_layout nsize nalign /\ forall blk, find_block s b = Some blk -> nsize <= bsize blk
+  | OResetTo _ cp => cp_valid c s cp
+  | OReserve _ n => 0 <= n
+  | OReset | OResetToStart | ODrop => depth s = 0%nat
+  | OUnclaim => (0 < depth s)%nat
+  | _ => True
+  end.
+
+(* the layout for which an operation may ask the base allocator for a chunk *)
+Definition op_layout (c : cfg) (s : arena) (o : op) : option (Z * Z) :=
+  match o with
+  | OAlloc _ _ size align _ => Some (size, align)
+  | OGrow _ _ _ nsize nalign _ => Some (nsize, nalign)
+  | OShrink _ _ _ nsize nalign => Some (nsize, nalign)
+  | OTryErr _ _ size align => Some (size, align)
+  | OReserve _ n =>
+    match cur_chunk s with
+    | Some ch => Some (n - (remaining_in c ch + sumZ (map (capacity c) (chunks_after s))), 1)
+    | None => Some (n, 1)
+    end
+  | _ => None
+  end.
+
+Definition op_resp_ok (c : cfg) (s : arena) (o : op) (r : resp) : Prop :=
+  match op_layout c s o with
+  | Some (sz, al) => resp_ok c s sz al r
+  | None => True
+  end.
+
+Lemma inv_ext c s s' :
+  chunks s' = chunks s -> cur s' = cur s -> aligns s' = aligns s -> live s' = live s ->
+  nextid s' = nextid s -> inv c s -> inv c s'.
+Proof.
+  intros E1 E2 E3 E4 E5 (Hg & Hb & Hd & Hi). split; [eapply ginv_ext; eassumption|].
+  rewrite E4. split.
+  - rewrite Forall_forall in *. intros b Hin. eapply block_ok_ext; [exact E1|exact E2|]. apply Hb. exact Hin.
+  - split; [exact Hd|]. unfold ids_ok in *. rewrite E4, E5. exact Hi.
+Qed.
+
+Lemma inv_tick c s : inv c s -> inv c (tick s).
+Proof. apply inv_ext; reflexivity. Qed.
+
+Lemma resp_ok_ext c s s' size align r :
+  chunks s' = chunks s -> resp_ok c s size align r -> resp_ok c s' size align r.
+Proof.
+  intros E H. eapply resp_ok_same_geom; [|exact H]. rewrite E. apply Forall2_same_geom_refl.
+Qed.
+
+Lemma inv_no_live_unalloc c s : inv c s -> (forall i, cur s <> Cur i) -> live s = [].
+Proof.
+  intros (_ & Hb & _) Hn. destruct (live s) as [|b l]; [reflexivity|exfalso].
+  inversion Hb as [|x xs (_ & _ & (k & chk & _ & _ & Hs)) _]; subst.
+  destruct (cur s) as [i| |]; [apply (Hn i); reflexivity|exact Hs|exact Hs].
+Qed.
+
+(* ------------------------------------------------------------ OAlloc *)
+Lemma step_inv_alloc c s0 h ws size align zeroed r :
+  cfg_ok c -> inv c s0 -> valid_layout size align -> resp_ok c s0 size align r ->
+  inv c (fst (step c s0 (OAlloc h ws size align zeroed) r)).
+Proof.
+  intros Hc Hinv Hl Hr. apply inv_tick in Hinv.
+  assert (Hr' : resp_ok c (tick s0) size align r) by (eapply resp_ok_ext; [|exact Hr]; reflexivity).
+  cbn [step]. set (s := tick s0) in *.
+  destruct (negb (is_top s h)); [exact Hinv|].
+  destruct (raw_alloc c s size align r) as [s1 [p|e]] eqn:Ea.
+  - destruct (raw_alloc_post c s size align r s1 (inl p) Hc (proj1 Hinv) Hl Hr' Ea)
+      as ((F1 & F2 & F3 & F4 & F5 & F6) & Hg1 & Hpl & Hap & Hpp & Hdisj).
+    destruct Hinv as (Hg & Hb & Hd & Hi).
+    set (s2 := if zeroed then zero_fill s1 p size else s1).
+    assert (E2 : chunks s2 = chunks s1 /\ cur s2 = cur s1 /\ aligns s2 = aligns s1 /\ live s2 = live s1 /\ nextid s2 = nextid s1).
+    { unfold s2. destruct zeroed; repeat split. }
+    destruct E2 as (E21 & E22 & E23 & E24 & E25).
+    destruct (add_block s2 p size align) as [s3 id] eqn:Eadd. cbn [fst].
+    destruct Hl as (Hl1 & Hs0 & Hl3).
+    eapply (inv_add_block c s2 p size align s3 id).
+    + eapply ginv_ext; eassumption.
+    + rewrite E24, F1. rewrite Forall_forall in *. intros b Hin.
+      destruct (Hb b Hin) as (B1 & B2 & B3). repeat split; try assumption.
+      eapply placed_ext; [exact E21|exact E22|]. apply Hpl; assumption.
+    + rewrite E24, F1. exact Hd.
+    + unfold ids_ok in *. rewrite E24, E25, F1, F6. exact Hi.
+    + exact Hs0.
+    + exact Hap.
+    + eapply placed_ext; [exact E21|exact E22|exact Hpp].
+    + rewrite E24, F1. intros b Hin. rewrite Forall_forall in Hb. destruct (Hb b Hin) as (B1 & _ & B3).
+      apply Hdisj; assumption.
+    + exact Eadd.
+  - cbn [fst].
+    destruct (raw_alloc_post c s size align r s1 (inr e) Hc (proj1 Hinv) Hl Hr' Ea)
+      as ((F1 & F2 & F3 & F4 & F5 & F6) & Hg1 & Hpl & _).
+    destruct Hinv as (Hg & Hb & Hd & Hi).
+    split; [exact Hg1|]. rewrite F1. split.
+    + rewrite Forall_forall in *. intros b Hin. destruct (Hb b Hin) as (B1 & B2 & B3).
+      repeat split; try assumption. apply Hpl; assumption.
+    + split; [exact Hd|]. unfold ids_ok in *. rewrite F1, F6. exact Hi.
+Qed.
+
+(* ------------------------------------------------------------ ODealloc *)
+(* reclaiming the last block: the position moves back to (the aligned) start of the block *)
+Lemma dealloc_last_inv c s p sz :
+  cfg_ok c -> inv c s -> 0 <= sz -> placed c s p sz ->
+  (forall b, In b (live s) -> disjoint_rng (bptr b) (bsize b) p sz) ->
+  is_last c s p sz = true ->
+  inv c (dealloc_assume_last c s p sz).
+Proof.
+  intros Hc Hinv Hsz Hpl Hdis Hlast. unfold dealloc_assume_last.
+  destruct (negb (deallocates c)); [exact Hinv|].
+  unfold is_last in Hlast. destruct (cur_chunk s) as [ch|] eqn:Ecc; [|discriminate].
+  destruct (cur_chunk_spec s ch Ecc) as (i & Ec & En).
+  pose proof Hinv as ((Hok & Hd & Hm & Hcur) & _).
+  rewrite Ec in Hcur. destruct Hcur as (ch' & En' & Hmp). rewrite En in En'. injection En' as <-.
+  pose proof (Forall_nth_error _ _ _ _ Hok En) as [Hgeo Hpos].
+  pose proof (min_align_pos _ Hm) as Hmpos.
+  assert (Hin : in_chunk c ch p sz).
+  { eapply is_last_in_cur; try eassumption; [exact (proj1 Hinv)|].
+    destruct (up c); [apply Z.eqb_eq in Hlast|apply Z.eqb_eq in Hlast]; exact Hlast. }
+  destruct Hin as [I1 I2].
+  destruct (up c) eqn:Eup; apply Z.eqb_eq in Hlast.
+  - (* up: new position = up_align ptr m, between ptr and the old position *)
+    unfold align_posZ.
+    assert (Hnp1 : p <= up_alignZ p (malign s)) by (apply up_align_ge; exact Hmpos).
+    assert (Hnp2 : up_alignZ p (malign s) <= cpos ch) by (apply up_align_min; [exact Hmpos|exact Hmp|lia]).
+    eapply set_cur_pos_inv; try eassumption.
+    + lia.
+    + apply up_align_div; exact Hmpos.
+    + rewrite Eup. intros b Hb Hbs [J1 J2]. specialize (Hdis b Hb). unfold disjoint_rng in Hdis.
+      destruct Hinv as (_ & Hbl & _). rewrite Forall_forall in Hbl.
+      destruct (Hbl b Hb) as (_ & _ & (k & chk & Hk & Hinc & Hs)). rewrite Ec in Hs.
+      (* b lies in the content range of the current chunk: it is placed there *)
+      assert (Hside : bptr b + bsize b <= cpos ch).
+      { destruct Hs as [Hki Hks]. destruct (Nat.eq_dec k i) as [->|Hne].
+        - rewrite En in Hk. injection Hk as <-. specialize (Hks eq_refl Hbs). rewrite Eup in Hks. exact Hks.
+        - exfalso. pose proof (Forall_nth_error _ _ _ _ Hok Hk) as [Gk _].
+          pose proof (chunk_range_in_granted c chk _ _ Hc Gk Hinc ltac:(lia)).
+          pose proof (chunk_range_in_granted c ch _ _ Hc Hgeo (conj J1 J2) ltac:(lia)).
+          specialize (Hd k i chk ch Hne Hk En). lia. }
+      lia.
+  - (* down: new position = down_align (ptr + size) m, between ptr and ptr + size *)
+    unfold align_posZ. subst p.
+    assert (Hnp1 : down_alignZ (cpos ch + sz) (malign s) <= cpos ch + sz) by (apply down_align_le; exact Hmpos).
+    assert (Hnp2 : cpos ch <= down_alignZ (cpos ch + sz) (malign s)) by (apply down_align_max; [exact Hmpos|exact Hmp|lia]).
+    eapply set_cur_pos_inv; try eassumption.
+    + lia.
+    + apply down_align_div; exact Hmpos.
+    + rewrite Eup. intros b Hb Hbs [J1 J2]. specialize (Hdis b Hb). unfold disjoint_rng in Hdis.
+      destruct Hinv as (_ & Hbl & _). rewrite Forall_forall in Hbl.
+      destruct (Hbl b Hb) as (_ & _ & (k & chk & Hk & Hinc & Hs)). rewrite Ec in Hs.
+      assert (Hside : cpos ch <= bptr b).
+      { destruct Hs as [Hki Hks]. destruct (Nat.eq_dec k i) as [->|Hne].
+        - rewrite En in Hk. injection Hk as <-. specialize (Hks eq_refl Hbs). rewrite Eup in Hks. exact Hks.
+        - exfalso. pose proof (Forall_nth_error _ _ _ _ Hok Hk) as [Gk _].
+          pose proof (chunk_range_in_granted c chk _ _ Hc Gk Hinc ltac:(lia)).
+          pose proof (chunk_range_in_granted c ch _ _ Hc Hgeo (conj J1 J2) ltac:(lia)).
+          specialize (Hd k i chk ch Hne Hk En). lia. }
+      lia.
+Qed.
+
+(* facts about a block found in the ghost list, relative to the list without it *)
+Lemma remove_block_facts c s id blk :
+  inv c s -> find_block s id = Some blk ->
+  inv c (remove_block s id) /\ 0 <= bsize blk /\ (balign blk | bptr blk) /\
+  placed c (remove_block s id) (bptr blk) (bsize blk) /\
+  (forall b, In b (live (remove_block s id)) -> disjoint_rng (bptr b) (bsize b) (bptr blk) (bsize blk)).
+Proof.
+  intros Hinv Hf. destruct (find_block_spec _ _ _ Hf) as [Hin Hid].
+  split; [apply inv_filter; exact Hinv|].
+  destruct Hinv as (Hg & Hb & Hd & (Hnd & _)).
+  rewrite Forall_forall in Hb. destruct (Hb blk Hin) as (B1 & B2 & B3).
+  split; [exact B1|]. split; [exact B2|]. split; [exact B3|].
+  intros b Hb'. unfold remove_block in Hb'. cbn [live upd_live] in Hb'. apply filter_In in Hb'.
+  destruct Hb' as [Hbin Hne]. apply negb_true_iff in Hne. apply Nat.eqb_neq in Hne.
+  (* two different elements of a pairwise-disjoint list *)
+  clear - Hd Hin Hbin Hne Hid. induction Hd as [|a l Ha Hl IH]; [contradiction|].
+  rewrite Forall_forall in Ha. destruct Hin as [->|Hin], Hbin as [->|Hbin].
+  - congruence.
+  - apply disjoint_rng_sym. exact (Ha b Hbin).
+  - exact (Ha blk Hin).
+  - apply IH; assumption.
+Qed.
+
+Lemma step_inv_dealloc c s0 h ws b r :
+  cfg_ok c -> inv c s0 -> inv c (fst (step c s0 (ODealloc h ws b) r)).
+Proof.
+  intros Hc Hinv. apply inv_tick in Hinv. cbn [step]. set (s := tick s0) in *.
+  destruct (find_block s b) as [blk|] eqn:Ef; [|exact Hinv].
+  destruct (remove_block_facts c s b blk Hinv Ef) as (Hinv1 & B1 & B2 & B3 & B4).
+  destruct (negb (is_top s h) || has_wrapper WDealloc ws); [exact Hinv1|].
+  cbn [fst]. unfold raw_dealloc. destruct (negb (deallocates c)); [exact Hinv1|].
+  destruct (is_last c (remove_block s b) (bptr blk) (bsize blk)) eqn:El; [|exact Hinv1].
+  apply dealloc_last_inv; assumption.
+Qed.
+
+(* ------------------------------------------------------------ resets *)
+Lemma inv_single_fresh c s ch :
+  cfg_ok c -> valid_min_align (malign s) -> chunk_geom c ch ->
+  inv c (upd_cur (upd_chunks (upd_live s []) [reset_chunk c ch]) (Cur 0)).
+Proof.
+  intros Hc Hm Hg. destruct (fresh_pos_ok c Hc ch Hg) as [Hok H16].
+  split.
+  - unfold ginv. cbn [chunks cur upd_cur upd_chunks upd_live malign aligns].
+    split; [constructor; [exact Hok|constructor]|]. split.
+    + intros i j a b Hij Ha Hb. destruct i as [|[|i]], j as [|[|j]]; cbn in Ha, Hb; try discriminate; congruence.
+    + split; [exact Hm|]. exists (reset_chunk c ch). split; [reflexivity|].
+      eapply Z.divide_trans; [apply min_align_div16; exact Hm|exact H16].
+  - cbn [live upd_cur upd_chunks upd_live]. split; [constructor|]. split; [constructor|].
+    split; [constructor|constructor].
+Qed.
+
+Lemma log_events_fields s es :
+  chunks (log_events s es) = chunks s /\ cur (log_events s es) = cur s /\
+  aligns (log_events s es) = aligns s /\ live (log_events s es) = live s /\
+  nextid (log_events s es) = nextid s /\ depth (log_events s es) = depth s /\
+  mem (log_events s es) = mem s /\ epoch (log_events s es) = epoch s.
+Proof.
+  revert s. induction es as [|e es IH]; intros s; [repeat split|].
+  unfold log_events in *. cbn [fold_left]. destruct (IH (log_event s e)) as (A1 & A2 & A3 & A4 & A5 & A6 & A7 & A8).
+  rewrite A1, A2, A3, A4, A5, A6, A7, A8. repeat split.
+Qed.
+
+Lemma inv_clear_live c s : inv c s -> inv c (upd_live s []).
+Proof.
+  intros (Hg & _). split; [exact Hg|]. cbn [live upd_live].
+  split; [constructor|]. split; [constructor|]. split; constructor.
+Qed.
+
+Lemma last_in_rev {A} (l : list A) x t : rev l = x :: t -> In x l.
+Proof. intros H. apply in_rev. rewrite H. left; reflexivity. Qed.
+
+Lemma step_inv_reset c s0 r : cfg_ok c -> inv c s0 -> inv c (fst (step c s0 OReset r)).
+Proof.
+  intros Hc Hinv. apply inv_tick in Hinv. cbn [step]. set (s := tick s0) in *.
+  pose proof Hinv as ((Hok & Hd & Hm & Hcur) & _).
+  pose proof (inv_clear_live c s Hinv) as Hlive0.
+  cbn [cur upd_live]. destruct (cur s) as [i| |] eqn:Ec; [|exact Hlive0|exact Hlive0].
+  cbn [chunks upd_live]. destruct (rev (chunks s)) as [|lst t] eqn:Er; [exact Hlive0|].
+  cbn [fst].
+  pose proof (last_in_rev _ _ _ Er) as Hin. rewrite Forall_forall in Hok. destruct (Hok lst Hin) as [Hg _].
+  destruct (log_events_fields (upd_live s []) (reset_events c (upd_live s []))) as (A1 & A2 & A3 & A4 & A5 & _).
+  apply (inv_ext c (upd_cur (upd_chunks (upd_live s []) [reset_chunk c lst]) (Cur 0))); try reflexivity.
+  - cbn [aligns upd_cur upd_chunks]. rewrite A3. reflexivity.
+  - cbn [live upd_cur upd_chunks]. rewrite A4. reflexivity.
+  - cbn [nextid upd_cur upd_chunks]. rewrite A5. reflexivity.
+  - apply inv_single_fresh; assumption.
+Qed.
+
+Lemma step_inv_reset_to_start c s0 r : cfg_ok c -> inv c s0 -> inv c (fst (step c s0 OResetToStart r)).
+Proof.
+  intros Hc Hinv. apply inv_tick in Hinv. cbn [step]. set (s := tick s0) in *.
+  pose proof Hinv as ((Hok & Hd & Hm & Hcur) & _).
+  pose proof (inv_clear_live c s Hinv) as Hlive0.
+  cbn [cur upd_live]. destruct (cur s) as [i| |] eqn:Ec; [|exact Hlive0|exact Hlive0].
+  cbn [chunks upd_live]. destruct (chunks s) as [|ch rest] eqn:Ech; [exact Hlive0|].
+  cbn [fst]. inversion Hok as [|x xs [Hg _] Hrest]; subst.
+  destruct (fresh_pos_ok c Hc ch Hg) as [Hrok H16].
+  split.
+  - unfold ginv. cbn [chunks cur upd_cur upd_chunks upd_live malign aligns].
+    split; [constructor; assumption|]. split.
+    + eapply (chunks_disjoint_same_geom (ch :: rest)); [|exact Hd].
+      constructor; [apply same_geom_set_pos|apply Forall2_same_geom_refl].
+    + split; [exact Hm|]. exists (reset_chunk c ch). split; [reflexivity|].
+      eapply Z.divide_trans; [apply min_align_div16; exact Hm|exact H16].
+  - cbn [live upd_cur upd_chunks upd_live]. split; [constructor|]. split; [constructor|]. split; constructor.
+Qed.
+
+Lemma step_inv_drop c s0 r : cfg_ok c -> inv c s0 -> inv c (fst (step c s0 ODrop r)).
+Proof.
+  intros Hc Hinv. apply inv_tick in Hinv. cbn [step]. set (s := tick s0) in *.
+  pose proof (inv_clear_live c s Hinv) as Hlive0.
+  destruct (Nat.eqb (depth (upd_live s [])) 0); [|exact Hlive0]. cbn [fst].
+  destruct (log_events_fields (upd_live s []) (drop_events c (upd_live s []))) as (A1 & A2 & A3 & A4 & A5 & _).
+  destruct Hinv as ((_ & _ & Hm & _) & _).
+  apply (inv_ext c (upd_cur (upd_chunks (upd_live s []) []) Unalloc)); try reflexivity.
+  - cbn [aligns upd_cur upd_chunks]. rewrite A3. reflexivity.
+  - cbn [live upd_cur upd_chunks]. rewrite A4. reflexivity.
+  - cbn [nextid upd_cur upd_chunks]. rewrite A5. reflexivity.
+  - split.
+    + unfold ginv. cbn [chunks cur upd_cur upd_chunks upd_live].
+      split; [constructor|]. split; [intros i j a b _ Ha; destruct i; discriminate|]. split; [exact Hm|reflexivity].
+    + cbn [live upd_cur upd_chunks upd_live]. split; [constructor|]. split; [constructor|]. split; constructor.
+Qed.
+
+(* ------------------------------------------------------------ trivial operations *)
+Lemma step_inv_fill c s0 b seed r : inv c s0 -> inv c (fst (step c s0 (OFill b seed) r)).
+Proof.
+  intros Hinv. apply inv_tick in Hinv. cbn [step]. destruct (find_block (tick s0) b); cbn [fst]; [|exact Hinv].
+  eapply inv_ext; [..|exact Hinv]; reflexivity.
+Qed.
+
+Lemma step_inv_checkpoint c s0 h r : inv c s0 -> inv c (fst (step c s0 (OCheckpoint h) r)).
+Proof. intros Hinv. apply inv_tick in Hinv. exact Hinv. Qed.
+
+Lemma step_inv_claim c s0 h r : inv c s0 -> inv c (fst (step c s0 (OClaim h) r)).
+Proof.
+  intros Hinv. apply inv_tick in Hinv. cbn [step]. destruct (is_top (tick s0) h); cbn [fst]; [|exact Hinv].
+  eapply inv_ext; [..|exact Hinv]; reflexivity.
+Qed.
+
+Lemma step_inv_unclaim c s0 r : inv c s0 -> inv c (fst (step c s0 OUnclaim r)).
+Proof.
+  intros Hinv. apply inv_tick in Hinv. cbn [step fst]. eapply inv_ext; [..|exact Hinv]; reflexivity.
+Qed.
+
+(* ------------------------------------------------------------ OResetTo *)
+Lemma filter_nil_all {A} (f : A -> bool) l : (forall x, In x l -> f x = false) -> filter f l = [].
+Proof.
+  induction l as [|a l IH]; intros H; [reflexivity|]. cbn. rewrite (H a (or_introl eq_refl)).
+  apply IH. intros x Hx. apply H. right; exact Hx.
+Qed.
+
+Lemma step_inv_reset_to c s0 h cp r :
+  cfg_ok c -> inv c s0 -> cp_valid c s0 cp -> inv c (fst (step c s0 (OResetTo h cp) r)).
+Proof.
+  intros Hc Hinv Hcp. apply inv_tick in Hinv.
+  assert (Hcp' : cp_valid c (tick s0) cp) by exact Hcp. clear Hcp.
+  cbn [step]. set (s := tick s0) in *.
+  set (keep := fun b : block => Nat.leb (born b) (cp_epoch cp)).
+  pose proof (inv_filter c s keep Hinv) as Hinv1.
+  unfold do_reset_to.
+  unfold cp_valid in Hcp'. destruct (cp_state cp) as [j| |] eqn:Ecp; [| |contradiction].
+  - destruct Hcp' as (ch & En & Hrng & Hmal & (i & Ec & Hji) & Hblocks).
+    cbn [chunks upd_live]. rewrite En. cbn [fst].
+    pose proof Hinv as ((Hok & Hd & Hm & Hcur) & Hb & Hdis & Hids).
+    pose proof (Forall_nth_error _ _ _ _ Hok En) as [Hgeo _].
+    pose proof (nth_error_some_lt _ _ _ En) as Hlt.
+    assert (HF : Forall2 same_geom (chunks s) (set_nth (chunks s) j (set_pos ch (cp_addr cp)))).
+    { eapply Forall2_set_nth; [apply Forall2_same_geom_refl|exact En|apply same_geom_set_pos]. }
+    split.
+    { unfold ginv. cbn [chunks cur upd_cur upd_chunks upd_live malign aligns].
+      split; [apply Forall_set_nth; [exact Hok|exact (set_pos_ok c ch _ Hgeo Hrng)]|].
+      split; [eapply chunks_disjoint_same_geom; eassumption|]. split; [exact Hm|].
+      exists (set_pos ch (cp_addr cp)). split; [apply nth_error_set_nth_eq; exact Hlt|exact Hmal]. }
+    destruct Hinv1 as (_ & Hb1 & Hdis1 & Hids1).
+    split; [|split; [exact Hdis1|exact Hids1]].
+    cbn [live upd_cur upd_chunks upd_live]. rewrite Forall_forall in *. intros b Hin.
+    apply filter_In in Hin. destruct Hin as [Hin Hk]. apply Nat.leb_le in Hk.
+    destruct (Hb b Hin) as (B1 & B2 & _). split; [exact B1|]. split; [exact B2|].
+    destruct (Hblocks b Hin Hk) as (k & chk & Hnk & Hinc & Hkj & Hside).
+    destruct (Nat.eq_dec k j) as [->|Hne].
+    + rewrite En in Hnk. injection Hnk as <-.
+      exists j, (set_pos ch (cp_addr cp)). cbn [chunks cur upd_cur upd_chunks upd_live].
+      split; [apply nth_error_set_nth_eq; exact Hlt|]. split; [exact Hinc|]. split; [lia|].
+      intros _ Hpos. unfold alloc_side. cbn [set_pos cpos]. apply Hside; [reflexivity|exact Hpos].
+    + exists k, chk. cbn [chunks cur upd_cur upd_chunks upd_live].
+      split; [rewrite nth_error_set_nth_neq by congruence; exact Hnk|]. split; [exact Hinc|].
+      split; [exact Hkj|intros E; congruence].
+  - destruct Hcp' as [_ Hnone].
+    assert (Hnil : filter keep (live s) = []).
+    { apply filter_nil_all. intros b Hin. unfold keep. destruct (Nat.leb (born b) (cp_epoch cp)) eqn:E; [|reflexivity].
+      exfalso. apply Nat.leb_le in E. exact (Hnone b Hin E). }
+    fold keep. rewrite Hnil in *.
+    cbn [cur upd_live]. destruct (cur s) as [i| |] eqn:Ec; [|exact Hinv1|exact Hinv1].
+    cbn [chunks upd_live]. destruct (chunks s) as [|ch rest] eqn:Ech; [exact Hinv1|].
+    cbn [fst]. pose proof Hinv as ((Hok & Hd & Hm & Hcur) & _). rewrite Ech in Hok, Hd.
+    inversion Hok as [|x xs [Hg _] Hrest]; subst.
+    destruct (fresh_pos_ok c Hc ch Hg) as [Hrok H16].
+    split.
+    + unfold ginv. cbn [chunks cur upd_cur upd_chunks upd_live malign aligns].
+      split; [constructor; assumption|]. split.
+      * eapply (chunks_disjoint_same_geom (ch :: rest)); [|exact Hd].
+        constructor; [apply same_geom_set_pos|apply Forall2_same_geom_refl].
+      * split; [exact Hm|]. exists (reset_chunk c ch). split; [reflexivity|].
+        eapply Z.divide_trans; [apply min_align_div16; exact Hm|exact H16].
+    + cbn [live upd_cur upd_chunks upd_live]. split; [constructor|]. split; [constructor|]. split; constructor.
+Qed.
+
+(* ------------------------------------------------------------ OReserve *)
+Lemma step_inv_reserve c s0 h n r :
+  cfg_ok c -> inv c s0 -> 0 <= n -> op_resp_ok c s0 (OReserve h n) r ->
+  inv c (fst (step c s0 (OReserve h n) r)).
+Proof.
+  intros Hc Hinv Hn Hr. apply inv_tick in Hinv.
+  assert (Hr' : op_resp_ok c (tick s0) (OReserve h n) r) by exact Hr. clear Hr.
+  cbn [step]. set (s := tick s0) in *.
+  destruct (negb (is_top s h)); [exact Hinv|].
+  unfold op_resp_ok, op_layout, cur_chunk in Hr'.
+  pose proof Hinv as ((Hok & Hd & Hm & Hcur) & Hb & Hdis & Hids).
+  destruct (cur s) as [i| |] eqn:Ec; [| |exact Hinv].
+  - destruct Hcur as (ch & En & Hmp). rewrite En in *.
+    destruct (n <=? remaining_in c ch + sumZ (map (capacity c) (chunks_after s))); [exact Hinv|].
+    set (rest := n - (remaining_in c ch + sumZ (map (capacity c) (chunks_after s)))) in *.
+    destruct (IMAX <? rest); [exact Hinv|].
+    destruct (grow_arena c s rest 1 r) as [s1 [e|]] eqn:Eg; cbn [fst].
+    + destruct (grow_arena_spec c s rest 1 r s1 (Some e) Hc Hr' Eg) as ((F1 & F2 & F3 & F4 & F5 & F6) & Ech & Ecu).
+      apply (inv_ext c s); try assumption; cbn [chunks cur aligns live nextid upd_cur]; congruence.
+    + destruct (grow_arena_spec c s rest 1 r s1 None Hc Hr' Eg)
+        as ((F1 & F2 & F3 & F4 & F5 & F6) & nch & addr & g & -> & Ech & Ecu & Hchok & Hc16 & Ecb & Ecg).
+      pose proof (nth_error_some_lt _ _ _ En) as Hlt.
+      split.
+      * unfold ginv, malign in *. cbn [chunks cur aligns upd_cur]. rewrite Ech, F4.
+        split; [apply Forall_app; split; [exact Hok|constructor; [exact Hchok|constructor]]|].
+        split.
+        { apply (chunks_disjoint_app c); [exact Hc|exact Hd|].
+          intros ch0 Hin0. destruct Hr' as (_ & _ & _ & _ & _ & R6). specialize (R6 ch0 Hin0). rewrite Ecb, Ecg. lia. }
+        split; [exact Hm|]. try rewrite Ec. exists ch. split; [rewrite nth_error_app1 by exact Hlt; exact En|exact Hmp].
+      * cbn [live upd_cur]. rewrite F1. split.
+        { rewrite Forall_forall in *. intros b Hin. destruct (Hb b Hin) as (B1 & B2 & (k & chk & Hk & Hinc & Hs)).
+          split; [exact B1|]. split; [exact B2|]. exists k, chk. cbn [chunks cur upd_cur]. rewrite Ech.
+          split; [rewrite nth_error_app1 by (apply nth_error_some_lt in Hk; exact Hk); exact Hk|].
+          split; [exact Hinc|]. try rewrite Ec in Hs. try rewrite Ec. exact Hs. }
+        split; [exact Hdis|]. unfold ids_ok in *. cbn [live nextid upd_cur]. rewrite F1, F6. exact Hids.
+  - (* unallocated *)
+    destruct (IMAX <? n); [exact Hinv|].
+    pose proof (inv_no_live_unalloc c s Hinv ltac:(intros i0; congruence)) as Hnil.
+    destruct (grow_arena c s n 1 r) as [s1 [e|]] eqn:Eg; cbn [fst].
+    + destruct (grow_arena_spec c s n 1 r s1 (Some e) Hc Hr' Eg) as ((F1 & F2 & F3 & F4 & F5 & F6) & Ech & Ecu).
+      apply (inv_ext c s); try assumption; congruence.
+    + destruct (grow_arena_spec c s n 1 r s1 None Hc Hr' Eg)
+        as ((F1 & F2 & F3 & F4 & F5 & F6) & nch & addr & g & -> & Ech & Ecu & Hchok & Hc16 & Ecb & Ecg).
+      rewrite Hcur in Ech, Ecu. cbn [app length] in Ech, Ecu.
+      split.
+      * unfold ginv, malign. rewrite Ech, Ecu, F4.
+        split; [constructor; [exact Hchok|constructor]|]. split.
+        { intros i j a b Hij Ha Hb'. destruct i as [|[|i]], j as [|[|j]]; cbn in Ha, Hb'; try discriminate; congruence. }
+        split; [exact Hm|]. exists nch. split; [reflexivity|].
+        eapply Z.divide_trans; [apply min_align_div16; exact Hm|exact Hc16].
+      * unfold ids_ok. rewrite F1, Hnil. cbn [map]. split; [constructor|]. split; [constructor|]. split; constructor.
+Qed.
+
+(* ------------------------------------------------------------ every reachable state *)
+Definition is_realloc (o : op) : bool :=
+  match o with OGrow _ _ _ _ _ _ | OShrink _ _ _ _ _ | OTryErr _ _ _ _ => true | _ => false end.
+
+(* PARTIAL: all operations except grow/shrink (their preservation proof is not finished; the
+   executable model of grow/shrink is still tied to the code by the correspondence check and
+   monitored on every trace). *)
+Theorem step_inv_partial c s o r :
+  cfg_ok c -> inv c s -> is_realloc o = false -> op_ok c s o -> op_resp_ok c s o r ->
+  inv c (fst (step c s o r)).
+Proof.
+  intros Hc Hinv Hnr Hok Hr. destruct o; try discriminate Hnr.
+  - apply step_inv_alloc; assumption.
+  - apply step_inv_dealloc; assumption.
+  - apply step_inv_fill; assumption.
+  - apply step_inv_checkpoint; assumption.
+  - apply step_inv_reset_to; assumption.
+  - apply step_inv_reset; assumption.
+  - apply step_inv_reset_to_start; assumption.
+  - apply step_inv_reserve; assumption.
+  - apply step_inv_claim; assumption.
+  - apply step_inv_unclaim; assumption.
+  - apply step_inv_drop; assumption.
+Qed.
+
+(* a run: operations with the base allocator's answers *)
+Fixpoint run (c : cfg) (s : arena) (ops : list (op * resp)) : arena :=
+  match ops with
+  | [] => s
+  | (o, r) :: rest => run c (fst (step c s o r)) rest
+  end.
+
+Fixpoint run_ok (c : cfg) (s : arena) (ops : list (op * resp)) : Prop :=
+  match ops with
+  | [] => True
+  | (o, r) :: rest =>
+    is_realloc o = false /\ op_ok c s o /\ op_resp_ok c s o r /\ run_ok c (fst (step c s o r)) rest
+  end.
+
+Theorem run_inv_partial c ops : forall s,
+  cfg_ok c -> inv c s -> run_ok c s ops -> inv c (run c s ops).
+Proof.
+  induction ops as [|[o r] rest IH]; intros s Hc Hinv Hok; [exact Hinv|].
+  destruct Hok as (H1 & H2 & H3 & H4). cbn [run]. apply IH; [exact Hc| |exact H4].
+  apply step_inv_partial; assumption.
+Qed.
+
+(* the initial states satisfy the invariant *)
+Lemma inv_unallocated c m : valid_min_align m -> inv c (init_unallocated m).
+Proof.
+  intros Hm. split.
+  - unfold ginv, init_unallocated, empty_arena, malign. cbn.
+    split; [constructor|]. split; [intros i j a b _ Ha; destruct i; discriminate|]. split; [exact Hm|reflexivity].
+  - cbn. split; [constructor|]. split; [constructor|]. split; constructor.
+Qed.
+
+(* what the invariant says about every live block (the statement of C01) *)
+Theorem inv_live_blocks c s :
+  cfg_ok c -> inv c s ->
+  (forall b, In b (live s) ->
+     (balign b | bptr b) /\ 0 <= bsize b /\
+     exists ch, In ch (chunks s) /\
+       cbase ch <= bptr b /\ bptr b + bsize b <= cbase ch + cgranted ch /\
+       content_start c ch <= bptr b /\ bptr b + bsize b <= content_end c ch) /\
+  (forall a b, In a (live s) -> In b (live s) -> bid a <> bid b ->
+     0 < bsize a -> 0 < bsize b ->
+     bptr a + bsize a <= bptr b \/ bptr b + bsize b <= bptr a).
+Proof.
+  intros Hc ((Hok & _) & Hb & Hd & _). split.
+  - intros b Hin. rewrite Forall_forall in Hb. destruct (Hb b Hin) as (B1 & B2 & (k & chk & Hk & Hinc & _)).
+    split; [exact B2|]. split; [exact B1|]. exists chk. split; [eapply nth_error_In; exact Hk|].
+    pose proof (Forall_nth_error _ _ _ _ Hok Hk) as [Gk _].
+    pose proof (chunk_range_in_granted c chk _ _ Hc Gk Hinc B1) as [R1 R2].
+    destruct Hinc as [I1 I2]. repeat split; assumption.
+  - intros a b Ha Hb' Hne Hsa Hsb.
+    assert (Hgen : forall l, ForallOrdPairs disjoint2 l -> In a l -> In b l -> disjoint2 a b).
+    { clear - Hne. intros l Hl. induction Hl as [|x l Hx Hl IH]; [contradiction|].
+      rewrite Forall_forall in Hx. intros [->|Ha] [->|Hb].
+      - congruence.
+      - exact (Hx b Hb).
+      - apply disjoint_rng_sym. exact (Hx a Ha).
+      - apply IH; assumption. }
+    specialize (Hgen _ Hd Ha Hb'). unfold disjoint2, disjoint_rng in Hgen. lia.
+Qed.
